@@ -99,13 +99,13 @@ var plans = map[string]*plan{
 	"C15": {
 		Level: "fault_enumeration",
 		Rule: "matrix: buffer state {empty, partial, full, wrapped-partial, wrapped-full, nearly-full} x operation {Read, ReadPeek, ReadWait, WriteTo, Write, WriteWait, WriteCommit, ReadFrom} x event {peer commits exactly enough, one byte short then the rest, Close once, Close twice, Close from two goroutines, Close also from the blocked side} x timing {after the call is parked in Cond.Wait; during a 5 ms yield between the call's last check and its Wait (lock held, delay only); the call held before taking the lock until the event has completed entirely}. " +
-			"A call that could only wait and was ended by Close must have returned io.EOF. Then Close and a later-calls probe of every exported method, one at a time. Verdict by goroutine state: a call is stuck when all scenario goroutines are parked on sync primitives with identical stacks in two snapshots and the driver has no action left. distinct = applicable cells.",
-		Quick:          []batchSpec{{Test: "TestC15", N: 16, Timeout: 15 * m}},
-		Thorough:       []batchSpec{{Test: "TestC15", N: 32, Timeout: 60 * m}},
+			"Mutual-wait cells: ring of 16/32 KiB exactly full at 5 offsets, the consumer commits 1..8191 bytes and waits (ReadWait) for a unit of size-8191..size bytes whose rest the socket pump (ReadFrom) still has to read: with room free and data pending ReadWait must return (300 cells). A call that could only wait and was ended by Close must have returned io.EOF. Then Close and a later-calls probe of every exported method, one at a time. Verdict by goroutine state: a call is stuck when all scenario goroutines are parked on sync primitives with identical stacks in two snapshots and the driver has no action left. distinct = applicable cells.",
+		Quick:          []batchSpec{{Test: "TestC15", N: 16, Timeout: 15 * m}, {Test: "TestC15Mutual", N: 4, Timeout: 15 * m}},
+		Thorough:       []batchSpec{{Test: "TestC15", N: 32, Timeout: 60 * m}, {Test: "TestC15Mutual", N: 4, Timeout: 15 * m}},
 		EvalStats:      []string{"c15.cells"},
-		Floors:         map[string]int64{"c15.cells": 550, "c15.cells_blocking": 450, "classes": 550},
+		Floors:         map[string]int64{"c15.cells": 550, "c15.cells_blocking": 450, "c15.mutual_cells": 300, "classes": 550},
 		FloorsThorough: map[string]int64{"c15.cells": 3300, "classes": 550},
-		Exhaustive:     func(r *result) bool { return r.stats["c15.cells"] >= 583 },
+		Exhaustive:     func(r *result) bool { return r.stats["c15.cells"] >= 583 && r.stats["c15.mutual_cells"] >= 300 },
 		Assumptions:    []string{"'blocks forever' is decided on goroutine state in a closed scenario (DESIGN 2.8), not on a deadline; watchdog expiry is inconclusive", "yield points inside critical sections only delay"},
 	},
 	"C01": {
@@ -173,11 +173,11 @@ var plans = map[string]*plan{
 	},
 	"C19": {
 		Level:       "exploration",
-		Rule:        "K in {1,2,3,5,10,60} s x pattern {silent from CONNACK; 8 intervals of traffic then silent; PINGREQ every 0.25K/0.5K/0.9K/0.99K for 50 intervals; PUBLISH-only at those intervals; a packet trickled one byte per 0.9K (recorded, not asserted)} in a synctest bubble over net.Pipe, so time is virtual and exact. Every PINGREQ must be answered, an active client must never be dropped, a silent one must be dropped later than K and no later than 2K after its last byte, and a witness must then receive its will exactly once. Plus the patterns silent-mid-packet, silent-after-header-byte, large-then-ping (a 3 KB packet and one almost as large as the 16 KiB ring in one write, then pings every 0.25 K / 0.9 K, then silence) and uneven pacing (a gap of 0.05..0.5 K followed by one of 0.8..0.99 K, 50 intervals). Window cells (real time, K = 1 s): a goroutine of the silent connection (processor or sender at its check-to-Wait step, or a publisher waiting for space in its outgoing ring) is held by the yield hook, under the mutex it holds anyway, until the keep-alive expiry is closing that very ring; the teardown must still finish (stop event, else goroutine-state verdict) and the will must arrive. distinct = (K, pattern, interval).",
+		Rule:        "K in {1,2,3,5,10,60} s x pattern {silent from CONNACK; 8 intervals of traffic then silent; PINGREQ every 0.25K/0.5K/0.9K/0.99K for 50 intervals; PUBLISH-only at those intervals; a packet trickled one byte per 0.9K (recorded, not asserted)} in a synctest bubble over net.Pipe, so time is virtual and exact. Every PINGREQ must be answered, an active client must never be dropped, a silent one must be dropped later than K and no later than 2K after its last byte, and a witness must then receive its will exactly once. Plus the patterns silent-mid-packet, silent-after-header-byte, large-then-ping (a 3 KB packet and one almost as large as the 16 KiB ring in one write, then pings every 0.25 K / 0.9 K, then silence), silent-receiving (the silent client holds a subscription and another client publishes to it every 0.25 K / 0.5 K / 0.9 K: what the broker writes to a client is not activity of that client) and uneven pacing (a gap of 0.05..0.5 K followed by one of 0.8..0.99 K, 50 intervals). Window cells (real time, K = 1 s): a goroutine of the silent connection (processor or sender at its check-to-Wait step, or a publisher waiting for space in its outgoing ring) is held by the yield hook, under the mutex it holds anyway, until the keep-alive expiry is closing that very ring; the teardown must still finish (stop event, else goroutine-state verdict) and the will must arrive. distinct = (K, pattern, interval).",
 		Quick:       []batchSpec{{Test: "TestC19", N: 4, Timeout: 10 * m}, {Test: "TestC19Window", N: 3, Timeout: 10 * m}},
 		Thorough:    []batchSpec{{Test: "TestC19", N: 4, Timeout: 10 * m}, {Test: "TestC19Window", N: 6, Timeout: 20 * m}},
 		EvalStats:   []string{"c19.runs"},
-		Floors:      map[string]int64{"c19.runs": 138, "c19.pings_answered": 1000, "c19.window_cells": 5, "classes": 138},
+		Floors:      map[string]int64{"c19.runs": 156, "c19.pings_answered": 1000, "c19.window_cells": 5, "c19.fed_while_silent": 30, "classes": 156},
 		Exhaustive:  func(r *result) bool { return false },
 		Assumptions: []string{"virtual time (testing/synctest) changes when timers fire, not what the code does when they fire"},
 	},
